@@ -787,6 +787,7 @@ FILTER_OPS = {
     SF + "array::ConcatFilter": ({"chain", "extend", "append"}, {"rev", "dedup", "retain"}),
     SF + "array::CompactFilter": ({"filter", "retain", "filter_map"}, {"rev", "dedup"}),
     SF + "array::JoinFilter": ({"join"}, {"rev"}),
+    SF + "array::WhereFilter": ({"all"}, {"any"}),  # the "array of objects" validation quantifies over every element
     SF + "string::SplitFilter": ({"split"}, {"rsplit", "rev", "split_whitespace"}),
     SF + "string::operate::ReplaceFilter": ({"replace"}, {"replacen", "splitn"}),
     SF + "string::operate::RemoveFilter": ({"replace"}, {"replacen", "splitn"}),
@@ -799,7 +800,7 @@ FILTER_OPS = {
 OPS_VOC = set("to_uppercase to_lowercase to_ascii_uppercase to_ascii_lowercase trim trim_start trim_end trim_matches trim_start_matches "
               "trim_end_matches rev reverse ceil floor round trunc max min first last next next_back nth nth_back chars get chain extend append "
               "dedup retain filter filter_map join split rsplit split_whitespace replace replacen splitn rsplitn sort_by sort "
-              "graphemes grapheme_indices bytes unicode_words char_indices format parse to_string".split())
+              "graphemes grapheme_indices bytes unicode_words char_indices format parse to_string all any".split())
 
 
 def run_filter_ops(P, rep, only=None, rule="R-TABLE.filterops"):
@@ -975,3 +976,156 @@ def run_sign(P, rep, rule="R-SIGN"):
             rep.viol(rule, site, where, "a negative numeric value can be printed without its '-': " + mine[0])
         else:
             rep.ok(rule, site, where, "on every path to the print, value >= 0 is known or '-' was pushed (padding-flag tests correlated)")
+
+
+# ---------------------------------------------------------------------------------------
+# R-MISSINGPROP: what compact/where decide for an object that lacks the property
+
+def _contains_call(P, fn, pred, depth=3, seen=None):
+    seen = seen if seen is not None else set()
+    if fn.id in seen or depth < 0:
+        return False
+    seen.add(fn.id)
+    for bi, t in P.calls(fn):
+        if t.get("f") and pred(t["f"]):
+            return True
+    for b in fn.blocks:
+        for st in b["s"]:
+            if st[0] == "a" and st[2]["k"] == "agg" and st[2].get("ak") == "closure" and st[2]["id"] in P.fns:
+                if _contains_call(P, P.fns[st[2]["id"]], pred, depth - 1, seen):
+                    return True
+    return False
+
+
+def none_value(P, fn, is_source):
+    """Abstract value of fn's return when the Option produced by the source call is None.
+    is_source(P, fn, t) -> True for the call terminator whose destination is that Option.
+    Returns True / False (the returned bool) or None when not decided."""
+    from kreach import kreach
+    vals = {}
+    closures = {}
+    for b in fn.blocks:
+        for st in b["s"]:
+            if st[0] == "a" and not st[1][1] and st[2]["k"] == "agg" and st[2].get("ak") == "closure":
+                closures[st[1][0]] = st[2]["id"]
+    seeds = []
+    for bi, t in P.calls(fn):
+        if t.get("f") and is_source(P, fn, t, closures) and not t["d"][1]:
+            vals[t["d"][0]] = ("none",)
+            seeds.append((bi, t))
+    if not seeds:
+        return None
+
+    def val_of(op):
+        ol = op_local(op)
+        if ol and not ol[1]:
+            return vals.get(ol[0])
+        if op[0] == "k" and isinstance(op[1], dict) and op[1].get("val") in (0, 1):
+            return ("bool", bool(op[1]["val"]))
+        return None
+    changed = True
+    rounds = 0
+    while changed and rounds < 20:
+        changed = False
+        rounds += 1
+        for b in fn.blocks:
+            for st in b["s"]:
+                if st[0] != "a" or st[1][1]:
+                    continue
+                d, rv = st[1][0], st[2]
+                new = None
+                if rv["k"] == "use":
+                    new = val_of(rv["o"])
+                elif rv["k"] == "un" and rv.get("op") == "Not":
+                    v = val_of(rv["a"])
+                    if v and v[0] == "bool":
+                        new = ("bool", not v[1])
+                if new is not None and vals.get(d) != new:
+                    vals[d] = new
+                    changed = True
+            t = b["t"]
+            if t["k"] == "call" and t.get("f") and t["args"] and not t["d"][1]:
+                v0 = val_of(t["args"][0])
+                if not v0 or v0[0] != "none":
+                    continue
+                last = t["f"]["id"].rsplit("::", 1)[1]
+                new = None
+                if last in ("map", "and_then", "filter", "copied", "cloned", "as_ref", "as_deref", "inspect", "take", "or_else_none"):
+                    new = ("none",)
+                elif last in ("unwrap_or", "map_or") and len(t["args"]) > 1:
+                    new = val_of(t["args"][1])
+                    if new is not None and new[0] != "bool":
+                        new = None
+                elif last in ("is_some_and", "is_some", "unwrap_or_default"):
+                    new = ("bool", False)
+                elif last in ("is_none_or", "is_none"):
+                    new = ("bool", True)
+                if new is not None and vals.get(t["d"][0]) != new:
+                    vals[t["d"][0]] = new
+                    changed = True
+    # blocks reachable when the seed(s) are None (a direct `match`/`if let` on the Option follows its None edge)
+    reach = set()
+    for bi, t in seeds:
+        if t.get("t") is not None:
+            facts = {l: ("variant", 0) for l, v in vals.items() if v == ("none",)}
+            reach |= kreach(P, fn, [t["t"]], facts=facts)
+    outs = set()
+    for bi in reach | {s[0] for s in seeds}:
+        b = fn.blocks[bi]
+        for st in b["s"]:
+            if st[0] == "a" and st[1][0] == 0 and not st[1][1]:
+                v = None
+                if st[2]["k"] == "use":
+                    v = val_of(st[2]["o"])
+                elif st[2]["k"] == "un" and st[2].get("op") == "Not":
+                    v0 = val_of(st[2]["a"])
+                    v = ("bool", not v0[1]) if v0 and v0[0] == "bool" else None
+                outs.add(v[1] if v and v[0] == "bool" else None)
+        t = b["t"]
+        if t["k"] == "call" and t["d"][0] == 0 and not t["d"][1]:
+            v = vals.get(0)
+            outs.add(v[1] if v and v[0] == "bool" else None)
+    if len(outs) == 1:
+        return list(outs)[0]
+    return None
+
+
+def run_missing_property(P, rep, rule="R-MISSINGPROP"):
+    """`compact: "p"` and `where: "p"[, v]`: the predicate that selects objects evaluates to false for an object that has no
+    member p (abstractly evaluated: the Option from ObjectView::get is None and flows through map / and_then / unwrap_or(c) /
+    map_or(c, _) / is_some_and / `!` or a direct match)."""
+    OBJ_GET = lambda f: f.get("trait", "").endswith("ObjectView") and f["id"].endswith("::get")  # noqa: E731
+
+    def is_source(P_, fn, t, closures):
+        f = t["f"]
+        if OBJ_GET(f):
+            return True
+        if f["id"].rsplit("::", 1)[1] == "and_then":
+            for a in t["args"][1:]:
+                ol = op_local(a)
+                if ol and ol[0] in closures and closures[ol[0]] in P_.fns and _contains_call(P_, P_.fns[closures[ol[0]]], OBJ_GET):
+                    return True
+        return False
+    for ty in ("CompactFilter", "WhereFilter"):
+        root = P.fn_by_key("<liquid_lib::stdlib::filters::array::%s as liquid_core::parser::filter::Filter>::evaluate" % ty)
+        preds = []
+        for b in root.blocks:
+            for st in b["s"]:
+                if st[0] == "a" and st[2]["k"] == "agg" and st[2].get("ak") == "closure" and st[2]["id"] in P.fns:
+                    c = P.fns[st[2]["id"]]
+                    ret = P.local_ty(c, 0)
+                    if ret == "bool" and _contains_call(P, c, OBJ_GET):
+                        preds.append(c)
+        site0 = ty.replace("Filter", "").lower()
+        if not preds:
+            rep.viol(rule, site0 + " shape", P.where(root), "no boolean predicate closure that looks the property up was found: not decided")
+            continue
+        for k, c in enumerate(preds):
+            v = none_value(P, c, is_source)
+            site = "%s predicate#%d" % (site0, k)
+            if v is False:
+                rep.ok(rule, site, P.where(c), "an object without the property is not selected (predicate evaluates to false when get() is None)")
+            elif v is True:
+                rep.viol(rule, site, P.where(c), "an object that lacks the property is KEPT by `%s` (the predicate is true when get() is None)" % site0)
+            else:
+                rep.viol(rule, site + " undecided", P.where(c), "could not evaluate the predicate for a missing property (unrecognised Option idiom): not decided")
